@@ -20,10 +20,14 @@ PID = "C07"
 OPS = {"add": "add", "sub": "subtract", "mul": "multiply", "div": "divide", "mod": "modulo", "idiv": "integer_divide"}
 
 
-def to_vy(fr):
+def to_vy(fr, as_literal=False):
+    """integers reach the overloads both as Python ints (results of arithmetic) and as sympy Integers
+    (number literals push those)"""
     import sympy
 
-    return int(fr.numerator) if fr.denominator == 1 else sympy.Rational(fr.numerator, fr.denominator)
+    if fr.denominator == 1:
+        return sympy.Integer(int(fr.numerator)) if as_literal else int(fr.numerator)
+    return sympy.Rational(fr.numerator, fr.denominator)
 
 
 def rat_json(fr):
@@ -38,8 +42,9 @@ def call(op, a, b):
 
     ev = {"op": op, "a": rat_json(a), "b": rat_json(b), "err": "", "rty": "", "r": rat_json(Fraction(0)),
           "k": rat_json(Fraction(math.floor(a / b)) if b != 0 else Fraction(0))}
+    lit = (a.numerator * 7 + b.numerator * 3 + len(op)) % 4      # deterministic mix of operand representations
     try:
-        r = getattr(E, OPS[op])(to_vy(a), to_vy(b), Context())
+        r = getattr(E, OPS[op])(to_vy(a, lit in (1, 3)), to_vy(b, lit in (2, 3)), Context())
     except Exception as e:  # noqa: BLE001
         ev["err"] = type(e).__name__
         return ev, None
